@@ -54,12 +54,12 @@ def constructors(ctx):
             cn = t.get("cn") or ""
             if cn.startswith("lang::lang::Lang::add_") or cn.endswith("Lang::set_stemmer"):
                 args = [sy.operand(a) for a in t["args"][1:]]
-                tables = set()
+                tables = []            # in order of appearance: `A.iter().chain(B)` feeds A's rows, then B's
                 idx = []
                 for a in args:
                     for x in S.walk(a):
-                        if isinstance(x, tuple) and x and x[0] == "nconst" and x[1] in facts.bodies:
-                            tables.add(x[1])
+                        if isinstance(x, tuple) and x and x[0] == "nconst" and x[1] in facts.bodies and x[1] not in tables:
+                            tables.append(x[1])
                     # which tuple field of the table row feeds this parameter
                     fi = None
                     cur = S.strip_refs(a)
@@ -71,6 +71,12 @@ def constructors(ctx):
                             break
                         cur = S.strip_refs(cur[1])
                     idx.append(fi)
-                lc.feeds.append((bi, cn.rsplit("::", 1)[-1], sorted(tables)[0] if len(tables) == 1 else None, idx, t))
+                # several tables are accepted only when they are joined by `chain` (and nothing else combines them)
+                tb = tables[0] if len(tables) == 1 else None
+                if len(tables) > 1:
+                    names = set(x[1].rsplit("::", 1)[-1] for a in args for x in S.walk(a) if isinstance(x, tuple) and x and x[0] == "call")
+                    if "chain" in names and not (names - {"chain", "iter", "into_iter", "next", "copied", "cloned", "by_ref"}):
+                        tb = list(tables)
+                lc.feeds.append((bi, cn.rsplit("::", 1)[-1], tb, idx, t))
         out.append(lc)
     return out
